@@ -321,6 +321,13 @@ func genStream(seed uint64, faulty bool) *Scenario {
 	st.Def = g.docVal(40)
 	st.Def.WaitAsInt, st.Def.WaitEsc = false, false
 	st.Val = g.docVal(55)
+	if g.pct(10) {
+		// several documents decoded at the same time (streamconc.go)
+		st.Fault = "concurrent"
+		sc.Stream = st
+		genStreamConc(g, sc)
+		return sc
+	}
 	if faulty {
 		st.Fault = []string{"chunk", "chunk", "err-at-k", "err-at-k", "truncate", "corrupt-known", "corrupt-known", "byte-flip"}[g.r.IntN(8)]
 		switch g.r.IntN(5) {
@@ -907,6 +914,10 @@ func (r *streamRun) decodeVia(format string, rd io.Reader) (*CfgDoc, *captureSou
 
 func runStream(sc *Scenario, res *Result, keepLog bool) {
 	st := sc.Stream
+	if st.Fault == "concurrent" {
+		runStreamConc(sc, res, keepLog)
+		return
+	}
 	// a replay file drops empty lists (omitempty): the flags bring them back
 	for _, v := range []*DocVal{&st.Val, &st.Def} {
 		if v.EmptyTags && v.Tags == nil {
